@@ -215,6 +215,7 @@ def _run(repo, rep):
     else:
         rep.holds('R-LEAVES', key, w, 'f, a, b in every formula and in the iteration come from the ellipsoid parameter')
     key = 'R-BOUND::geodepy/geodesy.py::vincinv::iteration'
+    V.module_consts(f.module)
     cap = V.loop_cap(L.node)
     thr = V.loop_break_threshold(L.node)
     if cap is None:
